@@ -29,6 +29,24 @@ type NUint32 uint32
 type NUint64 uint64
 type NFloat64 float64
 
+// values that contain themselves
+type CycNode struct {
+	Name  string
+	Value int
+	Next  *CycNode
+	Kids  []*CycNode
+}
+type CycOrder struct {
+	Number, XRef string
+	Lines        []*CycLine
+}
+type CycLine struct {
+	SKU   string
+	Order *CycOrder
+}
+
+func tvCyc(k string) *TV { return &TV{T: "cyc", K: k} }
+
 // NDec: a named type over decimal.Decimal (the model sees the decimal it holds; the exact canonical form of an unconverted one is nd:)
 type NDec decimal.Decimal
 type NString string
@@ -330,7 +348,18 @@ func build(t *TV) (reflect.Value, bool) {
 			if fmt.Sprint(f[1]) == "2" { // flag 2: an exported field whose static type is `any`, whatever it holds
 				ft = anyT
 			}
-			sf = append(sf, reflect.StructField{Name: f[0].(string), Type: ft})
+			fld := reflect.StructField{Name: f[0].(string), Type: ft}
+			switch fmt.Sprint(f[1]) { // flags 3..6: an exported field that carries a json tag (the library goes by the Go name of a field)
+			case "3":
+				fld.Tag = `json:",omitempty"`
+			case "4":
+				fld.Tag = reflect.StructTag(`json:"` + strings.ToLower(fld.Name) + `,string"`)
+			case "5":
+				fld.Tag = reflect.StructTag(`json:"zz_` + strings.ToLower(fld.Name) + `" yaml:"-"`)
+			case "6":
+				fld.Tag = `json:"-"`
+			}
+			sf = append(sf, fld)
 			vals = append(vals, ev)
 		}
 		st := reflect.New(reflect.StructOf(sf)).Elem()
@@ -338,6 +367,32 @@ func build(t *TV) (reflect.Value, bool) {
 			st.Field(i).Set(v)
 		}
 		return st, true
+	case "cyc":
+		// values that contain themselves (the model's values are finite trees: it declines these)
+		switch t.K {
+		case "slice":
+			s := []any{float64(0), "x"}
+			s[0] = s
+			return reflect.ValueOf(s), true
+		case "map":
+			m := map[string]any{"x": float64(1)}
+			m["self"] = m
+			return reflect.ValueOf(m), true
+		case "node":
+			n := &CycNode{Name: "n", Value: 1}
+			n.Next = n
+			n.Kids = []*CycNode{n}
+			return reflect.ValueOf(n), true
+		case "parent":
+			o := &CycOrder{Number: "o1", XRef: "x"}
+			o.Lines = []*CycLine{{SKU: "a", Order: o}, {SKU: "b", Order: o}}
+			return reflect.ValueOf(o), true
+		case "inmap":
+			o := &CycOrder{Number: "o1", XRef: "x"}
+			o.Lines = []*CycLine{{SKU: "a", Order: o}}
+			return reflect.ValueOf(map[string]any{"order": o, "n": float64(1), "list": []any{o}}), true
+		}
+		panic("bad cyc")
 	case "unexp":
 		// K: "A" (two int fields A, a) | "K" (two string fields K, k) | "only" (one unexported int) | "F" (hidden, A int; K string)
 		// | "R1" (local type Rec{K string; A int}) | "R2" (another local type Rec{Pad, priv int; K string}); V: the field values
@@ -427,6 +482,8 @@ func (t *TV) MarshalJSON() ([]byte, error) {
 		m["v"] = t.V
 	case "unexp":
 		m["k"], m["v"] = t.K, t.V
+	case "cyc":
+		m["k"] = t.K
 	case "win":
 		m["v"], m["w"], m["k"] = t.V, t.W, t.K
 	}
@@ -509,6 +566,8 @@ func decodeTV(raw json.RawMessage) *TV {
 		t.V = xs
 		json.Unmarshal(m["w"], &t.W)
 		t.K = str("k")
+	case "cyc":
+		t.K = str("k")
 	case "unexp":
 		t.K = str("k")
 		var arr []json.RawMessage
@@ -544,11 +603,22 @@ func fcanon(f float64) string {
 }
 
 // canonV: the exact canonical form (dynamic Go types visible) compared with the Lean model's output.
-func canonV(v reflect.Value) string { return canonVd(v, true) }
+func canonV(v reflect.Value) string { return canonVd(v, true, map[[2]uintptr]bool{}) }
 
 // canonVd: top = the value is the result itself, not something inside a returned container (a number inside a container that is
 // handed back whole keeps its Go type: the model shows the decimal a named decimal holds)
-func canonVd(v reflect.Value, top bool) string {
+func canonVd(v reflect.Value, top bool, seen map[[2]uintptr]bool) string {
+	switch v.Kind() { // a value that contains itself
+	case reflect.Pointer, reflect.Map, reflect.Slice:
+		if !v.IsNil() && v.Kind() != reflect.Slice || v.Kind() == reflect.Slice && v.Len() > 0 {
+			key := [2]uintptr{v.Pointer(), uintptr(v.Kind())}
+			if seen[key] {
+				return "<cycle>"
+			}
+			seen[key] = true
+			defer delete(seen, key)
+		}
+	}
 	if !v.IsValid() {
 		return "nil"
 	}
@@ -556,7 +626,7 @@ func canonVd(v reflect.Value, top bool) string {
 		if v.IsNil() {
 			return "nil"
 		}
-		return canonVd(v.Elem(), top)
+		return canonVd(v.Elem(), top, seen)
 	}
 	if v.CanInterface() {
 		if d, ok := v.Interface().(decimal.Decimal); ok {
@@ -596,11 +666,11 @@ func canonVd(v reflect.Value, top bool) string {
 		if v.IsNil() {
 			return "p(nil)"
 		}
-		return "p(" + canonVd(v.Elem(), false) + ")"
+		return "p(" + canonVd(v.Elem(), false, seen) + ")"
 	case reflect.Slice, reflect.Array:
 		var parts []string
 		for i := 0; i < v.Len(); i++ {
-			parts = append(parts, canonVd(v.Index(i), false))
+			parts = append(parts, canonVd(v.Index(i), false, seen))
 		}
 		ei := b2s(v.Type().Elem().Kind() == reflect.Interface)
 		if v.Kind() == reflect.Slice {
@@ -625,7 +695,7 @@ func canonVd(v reflect.Value, top bool) string {
 			} else {
 				ks = k.String()
 			}
-			kvs = append(kvs, kv{ks, canonVd(v.MapIndex(k), false)})
+			kvs = append(kvs, kv{ks, canonVd(v.MapIndex(k), false, seen)})
 		}
 		sort.Slice(kvs, func(i, j int) bool { return kvs[i].k < kvs[j].k })
 		var parts []string
@@ -637,7 +707,7 @@ func canonVd(v reflect.Value, top bool) string {
 		var parts []string
 		for i := 0; i < v.NumField(); i++ {
 			f := v.Type().Field(i)
-			parts = append(parts, f.Name+b2s(f.IsExported())+"="+canonVd(v.Field(i), false))
+			parts = append(parts, f.Name+b2s(f.IsExported())+"="+canonVd(v.Field(i), false, seen))
 		}
 		return "st{" + strings.Join(parts, ",") + "}"
 	case reflect.Func:
